@@ -453,7 +453,13 @@ fn main() {
         "stampede" => {
             install_quiet_hook();
             let mut s = String::new();
-            std::io::stdin().read_to_string(&mut s).unwrap();
+            // job from a file (argv[2]) when given: under `miri -Zmiri-many-seeds` the program runs many times
+            match std::env::args().nth(2) {
+                Some(path) => s = std::fs::read_to_string(path).expect("job file"),
+                None => {
+                    std::io::stdin().read_to_string(&mut s).unwrap();
+                }
+            }
             let job: Value = serde_json::from_str(&s).expect("bad job json");
             let threads = job["threads"].as_array().unwrap().clone();
             let sleeps = job.get("sleeps_us").and_then(Value::as_array).cloned().unwrap_or_default();
